@@ -255,7 +255,7 @@ def run(scn):
         if tok is not None and tok[0] == "SOF":
             sofs.append((t1, tok[1], k, prev_class))
             cls = "sof_ok"
-            if host.idle_data is not None:
+            if host._idd is not None:
                 probes["sof_ok_with_idle_rx_data_junk"] += 1
             if prev_class == "sof_bad":
                 probes["sof_right_after_malformed"] += 1
